@@ -418,3 +418,211 @@ Proof.
   split; [cbn; intros [H|[H|[]]]; discriminate|]. intros t3 o3 E3. vm_compute in E3. injection E3 as <- <-.
   split; [exact I|]. intros t4 o4 E4. exact I.
 Qed.
+
+(* ======================================================================== *)
+(* several objects (an object and the copies its subsets returned)           *)
+
+Lemma nth_error_replace_same {A} (l : list A) n x :
+  (n < length l)%nat -> nth_error (replace_nth n x l) n = Some x.
+Proof.
+  revert n. induction l as [|y r IH]; intros [|n] H; cbn in *; try lia; [reflexivity|].
+  apply IH. lia.
+Qed.
+
+Lemma nth_error_replace_other {A} (l : list A) n j x :
+  j <> n -> nth_error (replace_nth n x l) j = nth_error l j.
+Proof.
+  revert n j. induction l as [|y r IH]; intros [|n] [|j] H; cbn; try reflexivity; try congruence.
+  apply IH. congruence.
+Qed.
+
+Lemma replace_nth_length {A} (l : list A) n x : length (replace_nth n x l) = length l.
+Proof. revert n. induction l as [|y r IH]; intros [|n]; cbn; auto. Qed.
+
+Lemma map_replace_nth {A B} (g : A -> B) (l : list A) n x :
+  map g (replace_nth n x l) = replace_nth n (g x) (map g l).
+Proof. revert n. induction l as [|y r IH]; intros [|n]; cbn; auto. rewrite IH. reflexivity. Qed.
+
+Lemma Forall_replace_nth {A} (P : A -> Prop) (l : list A) n x :
+  Forall P l -> P x -> Forall P (replace_nth n x l).
+Proof.
+  intros H Hx. revert n. induction H as [|y r Hy Hr IH]; intros [|n]; cbn; constructor; auto.
+Qed.
+
+Section PoolProofs.
+  Variable tab : Type.
+  Variables ids1 ids2 : tab -> list Z.
+  Variables sub1 sub2 : list Z -> list Z -> tab -> res tab.
+  Hypothesis sub1_ids2 : forall s r t t', sub1 s r t = Ok t' -> ids2 t' = ids2 t.
+  Hypothesis sub2_ids1 : forall s r t t', sub2 s r t = Ok t' -> ids1 t' = ids1 t.
+
+  Notation pool_m_step := (pool_m_step tab ids1 ids2 sub1 sub2).
+  Notation pool_a_step := (pool_a_step tab ids1 ids2 sub1 sub2).
+  Notation pool_m_run := (pool_m_run tab ids1 ids2 sub1 sub2).
+  Notation pool_a_run := (pool_a_run tab ids1 ids2 sub1 sub2).
+  Notation cache_valid := (cache_valid tab ids1 ids2).
+
+  (* every mutator applied along the history declares its cache effect truthfully for the
+     object it is applied to *)
+  Fixpoint pool_ops_ok (ts : list tab) (f : nat) (ops : list (xop (op tab))) : Prop :=
+    match ops with
+    | [] => True
+    | x :: r =>
+        match x with
+        | XOn p => match nth_error ts f with Some t => op_ok tab ids1 ids2 t p | None => True end
+        | XSwitch _ => True
+        end
+        /\ forall ts' f' out, pool_a_step ts f x = Ok (ts', f', out) -> pool_ops_ok ts' f' r
+    end.
+
+  Theorem pool_step_refines objs f x :
+    Forall cache_valid objs ->
+    match x with
+    | XOn p => match nth_error objs f with Some o => op_ok tab ids1 ids2 (o_tab o) p | None => True end
+    | XSwitch _ => True
+    end ->
+    match pool_m_step objs f x with
+    | Ok (objs', f', out) =>
+        pool_a_step (map o_tab objs) f x = Ok (map o_tab objs', f', out) /\ Forall cache_valid objs'
+    | Err k => pool_a_step (map o_tab objs) f x = Err k
+    end.
+  Proof.
+    intros V OK. destruct x as [p|k]; cbn [C12_Model.pool_m_step C12_Model.pool_a_step].
+    - rewrite nth_error_map. destruct (nth_error objs f) as [o|] eqn:E; cbn [option_map]; [|reflexivity].
+      assert (Vo : cache_valid o).
+      { rewrite Forall_forall in V. apply V. eapply nth_error_In. exact E. }
+      pose proof (step_refines tab ids1 ids2 sub1 sub2 sub1_ids2 sub2_ids1 o p Vo OK) as H.
+      destruct (m_step tab ids1 ids2 sub1 sub2 o p) as [[o' out]|k] eqn:M; cbn [bind].
+      + destruct H as [HA V']. rewrite HA. cbn [bind]. split.
+        * rewrite map_app, map_replace_nth. destruct out; reflexivity.
+        * apply Forall_app. split; [apply Forall_replace_nth; assumption|].
+          destruct out; constructor; [|constructor]. split; left; reflexivity.
+      + rewrite H. reflexivity.
+    - rewrite nth_error_map. destruct (nth_error objs k); cbn [option_map]; [|reflexivity].
+      split; [reflexivity|exact V].
+  Qed.
+
+  Theorem pool_run_refines ops : forall objs f,
+    Forall cache_valid objs -> pool_ops_ok (map o_tab objs) f ops ->
+    pool_m_run objs f ops = pool_a_run (map o_tab objs) f ops.
+  Proof.
+    induction ops as [|x r IH]; intros objs f V OK; [reflexivity|].
+    destruct OK as [OKx OKr].
+    assert (OKx' : match x with
+                   | XOn p => match nth_error objs f with Some o => op_ok tab ids1 ids2 (o_tab o) p | None => True end
+                   | XSwitch _ => True end).
+    { destruct x as [p|k]; [|exact I]. rewrite nth_error_map in OKx.
+      destruct (nth_error objs f); [exact OKx|exact I]. }
+    pose proof (pool_step_refines objs f x V OKx') as H.
+    cbn [C12_Model.pool_m_run C12_Model.pool_a_run].
+    destruct (pool_m_step objs f x) as [[[objs' f'] out]|k] eqn:E.
+    - destruct H as [HA V']. rewrite HA. rewrite nth_error_map.
+      destruct (nth_error objs' f') as [o|]; cbn [option_map]; [|reflexivity].
+      f_equal. apply IH; [exact V'|]. eapply OKr. exact HA.
+    - rewrite H. reflexivity.
+  Qed.
+
+  (* non-interference: an operation on the object in focus leaves every other object -
+     contents and caches - exactly as it was, so no by-ID query on another object can
+     change its answer; and a copy starts with no cache at all *)
+  Theorem pool_step_frame objs f p objs' f' out :
+    pool_m_step objs f (XOn p) = Ok (objs', f', out) ->
+    f' = f
+    /\ (forall j, j <> f -> (j < length objs)%nat -> nth_error objs' j = nth_error objs j)
+    /\ match out with
+       | Some t => nth_error objs' (length objs) = Some (mko t None None)
+                   /\ length objs' = S (length objs)
+       | None => length objs' = length objs
+       end.
+  Proof.
+    cbn [C12_Model.pool_m_step]. destruct (nth_error objs f) as [o|] eqn:E; [|discriminate].
+    destruct (m_step tab ids1 ids2 sub1 sub2 o p) as [[o' out0]|k]; cbn [bind]; [|discriminate].
+    intro H. injection H as <- <- <-. split; [reflexivity|]. split.
+    - intros j Hj Hl. rewrite nth_error_app1 by (rewrite replace_nth_length; exact Hl).
+      apply nth_error_replace_other. exact Hj.
+    - destruct out0 as [t|].
+      + split.
+        * rewrite nth_error_app2 by (rewrite replace_nth_length; lia).
+          rewrite replace_nth_length, Nat.sub_diag. reflexivity.
+        * rewrite app_length, replace_nth_length. cbn. lia.
+      + rewrite app_nil_r. apply replace_nth_length.
+  Qed.
+
+  Theorem pool_switch_frame objs f k objs' f' out :
+    pool_m_step objs f (XSwitch k) = Ok (objs', f', out) -> objs' = objs /\ f' = k /\ out = None.
+  Proof.
+    cbn [C12_Model.pool_m_step]. destruct (nth_error objs k); [|discriminate].
+    intro H. injection H as <- <- <-. auto.
+  Qed.
+
+  Lemma pool_ops_ok_all ops :
+    (forall t x p, In x ops -> x = XOn p -> op_ok tab ids1 ids2 t p) ->
+    forall ts f, pool_ops_ok ts f ops.
+  Proof.
+    induction ops as [|x r IH]; intros H ts f; cbn; [exact I|]. split.
+    - destruct x as [p|k]; [|exact I]. destruct (nth_error ts f); [|exact I].
+      eapply H; [left; reflexivity|reflexivity].
+    - intros ts' f' out _. apply IH. intros t y p Hy. apply H. right. exact Hy.
+  Qed.
+End PoolProofs.
+
+(* genotypes: every history over the object and its copies, no precondition *)
+Theorem refines_geno_pool (T : Type) (rare : T -> Z -> Z -> bool) (file : gtab) (anc : bool)
+        (ops : list (xop (gop T))) :
+  gm_prun T rare file anc false ops = ga_prun T rare file anc false ops.
+Proof.
+  unfold gm_prun, ga_prun.
+  change [g_empty anc] with (map (@o_tab gtab) [g_init anc]).
+  apply (pool_run_refines gtab g_ids1 g_ids2 g_sub1 g_sub2 g_sub1_ids2 g_sub2_ids1).
+  - constructor; [split; left; reflexivity|constructor].
+  - apply pool_ops_ok_all. intros t x p Hx ->. apply in_map_iff in Hx. destruct Hx as [y [Hy _]].
+    destruct y as [q|k]; cbn in Hy; [|discriminate]. injection Hy as <-. apply g_op_ok.
+Qed.
+
+(* phenotypes: append must be given a name the object IT IS APPLIED TO does not hold *)
+Section PhenoPool.
+  Variable file : ptab.
+
+  Fixpoint fresh_appends_pool (ts : list ptab) (f : nat) (ops : list (xop pop)) : Prop :=
+    match ops with
+    | [] => True
+    | x :: r =>
+        match x with
+        | XOn p => match nth_error ts f with Some t => p_pre t p | None => True end
+        | XSwitch _ => True
+        end
+        /\ forall ts' f' out,
+             pool_a_step ptab p_ids1 p_ids2 p_sub1 p_sub2 ts f (xmap (p_interp file false) x) = Ok (ts', f', out) ->
+             fresh_appends_pool ts' f' r
+    end.
+
+  Lemma fresh_appends_pool_ok ops : forall ts f,
+    fresh_appends_pool ts f ops ->
+    pool_ops_ok ptab p_ids1 p_ids2 p_sub1 p_sub2 ts f (map (xmap (p_interp file false)) ops).
+  Proof.
+    induction ops as [|x r IH]; intros ts f H; cbn; [exact I|]. destruct H as [Hx Hr]. split.
+    - destruct x as [p|k]; cbn; [|exact I]. destruct (nth_error ts f); [|exact I].
+      apply p_op_ok. exact Hx.
+    - intros ts' f' out E. apply IH. eapply Hr. exact E.
+  Qed.
+
+  Theorem refines_pheno_pool ops :
+    fresh_appends_pool [p_empty] 0 ops -> pm_prun file false ops = pa_prun file false ops.
+  Proof.
+    intro H. unfold pm_prun, pa_prun.
+    change [p_empty] with (map (@o_tab ptab) [p_init]).
+    apply (pool_run_refines ptab p_ids1 p_ids2 p_sub1 p_sub2 p_sub1_ids2 p_sub2_ids1).
+    - constructor; [split; left; reflexivity|constructor].
+    - apply fresh_appends_pool_ok. exact H.
+  Qed.
+End PhenoPool.
+
+(* the seeded sharing bug in the model's terms: parent indexed, copy taken, "sim" appended to the
+   copy only; the parent reports "sim" (5) missing, the copy finds it *)
+Example copies_do_not_share :
+  map (fun x => match x with Ok (_, Some r) => p_names r | _ => [] end)
+      (pm_prun pf3 false [XOn (PRead None); XOn (PIndex true true); XOn (PSubset (Some [0; 2]) None false);
+                          XSwitch 1; XOn (PAppend 5 [4; 4]); XOn (PSubset None (Some [5; 1]) false);
+                          XSwitch 0; XOn (PSubset None (Some [5; 1]) false)])
+  = [[]; []; [0; 1]; []; []; [5; 1]; []; [1]].
+Proof. vm_compute. reflexivity. Qed.
